@@ -33,7 +33,11 @@ type Op struct {
 	How  int      `json:"how,omitempty"`
 	Keys []uint64 `json:"keys,omitempty"`
 	Vals []uint64 `json:"vals,omitempty"`
-	Raw  string   `json:"raw,omitempty"` // hex bytes (garbage handles, raw messages)
+	Raw  string   `json:"raw,omitempty"` // "maxfile"/"wtmax": value relative to an announced limit
+	HX   string   `json:"hx,omitempty"`  // hex: explicit handle bytes (adversarial)
+	HX2  string   `json:"hx2,omitempty"`
+	NX   string   `json:"nx,omitempty"`  // hex: explicit name bytes (adversarial)
+	Msg  string   `json:"msg,omitempty"` // hex: raw bytes sent on the transport
 	X    int64    `json:"x,omitempty"`
 	Y    int64    `json:"y,omitempty"`
 }
@@ -222,8 +226,14 @@ func cmdRun(prop, tier string, seed, stride uint64, count int, budget float64, p
 			fmt.Fprintf(pj, "%d\n", s)
 		}
 		spec := e.Gen(prop, s, tier)
+		if spec == nil {
+			break // enumerated space exhausted
+		}
 		res := e.Exec(spec)
 		sum.Runs++
+		if t, ok := spec.Knobs["total"]; ok {
+			sum.Counters["space_size"] += t // divided by the number of runs in the driver
+		}
 		sum.LastSeed = s
 		if res.Nontrivial {
 			sum.Nontrivial++
